@@ -151,6 +151,20 @@ func runFillIn(c *Ctx) {
 		}
 	}
 	arr, dep := sides["arrival_time"], sides["departure_time"]
+	if arr != nil && dep != nil && arr.val != nil && dep.val != nil {
+		// the decoded values are handed on to a helper that applies the rule
+		for _, v := range []ssa.Value{arr.val, dep.val} {
+			for _, r := range *v.Referrers() {
+				if hc, isCall := r.(*ssa.Call); isCall {
+					if h := staticCallee(hc); h != nil && h != dec && p.isModuleFn(h) && h.Signature.Results().Len() >= 2 {
+						if fillViaHelper(c, fn, dec) {
+							return
+						}
+					}
+				}
+			}
+		}
+	}
 	if arr == nil || dep == nil || arr.flg == nil || dep.flg == nil || arr.val == nil || dep.val == nil {
 		if fillViaHelper(c, fn, dec) {
 			return
@@ -242,13 +256,48 @@ func runFillIn(c *Ctx) {
 	}
 }
 
-// fillViaHelper: the two cells are handed to a helper h(rawArrival, rawDeparture) (arrival, departure, ok) that decodes
-// both and applies the fill-in rule. For each of the four validity combinations the tuples h can return are read path
-// by path; in the caller the two results are what is stored, under ok == true. Emits the same obligations as the
-// in-line form. Returns false when the code does not have this shape.
+// fillViaHelper: the fill-in rule is applied by a helper h. Either the two cells (or their column objects) are handed
+// to h, which decodes both -- h(rawArrival, rawDeparture) -- or the caller decodes and hands h the two values with
+// their validity flags -- h(arrival, arrivalOk, departure, departureOk). h answers the two times, as two results or as
+// the fields of a small struct, and a flag. For each of the four validity combinations the answers h can give are read
+// path by path; in the caller what is stored in the two fields is located in h's answer (result index, struct field),
+// and both stores lie under ok == true. Emits the same obligations as the in-line form. Returns false when the code
+// does not have this shape.
 func fillViaHelper(c *Ctx, fn, dec *ssa.Function) bool {
 	p := c.P
 	fname := shortName(fn)
+	type side struct {
+		call     *ssa.Call
+		val, flg ssa.Value
+	}
+	extracts := func(call *ssa.Call) *side {
+		sd := &side{call: call}
+		for _, r := range *call.Referrers() {
+			if e, ok := r.(*ssa.Extract); ok {
+				if e.Index == 0 {
+					sd.val = e
+				} else {
+					sd.flg = e
+				}
+			}
+		}
+		return sd
+	}
+	// the column a value of the caller comes from: the column object, or a read of it
+	columnOf := func(a ssa.Value) string {
+		colObj := a
+		if tn := typeName(a.Type()); !strings.HasSuffix(tn, "csv.OptionalColumn") && !strings.HasSuffix(tn, "csv.RequiredColumn") {
+			rd, isCall := a.(*ssa.Call)
+			if !isCall || len(rd.Call.Args) == 0 {
+				return ""
+			}
+			colObj = rd.Call.Args[0]
+		}
+		if ci, _ := resolveColumn(colObj, 0); ci != nil {
+			return ci.name
+		}
+		return ""
+	}
 	for _, b := range fn.Blocks {
 		for _, in := range b.Instrs {
 			hc, ok := in.(*ssa.Call)
@@ -256,86 +305,94 @@ func fillViaHelper(c *Ctx, fn, dec *ssa.Function) bool {
 				continue
 			}
 			h := staticCallee(hc)
-			if h == nil || h == dec || !c.P.isModuleFn(h) || len(h.Blocks) == 0 || h.Signature.Results().Len() != 3 || len(h.Params) != len(hc.Call.Args) {
+			nres := 0
+			if h != nil {
+				nres = h.Signature.Results().Len()
+			}
+			if h == nil || h == dec || !c.P.isModuleFn(h) || len(h.Blocks) == 0 || nres < 2 || nres > 3 || len(h.Params) != len(hc.Call.Args) {
 				continue
 			}
+			// names of the symbols inside h, the flags among them, and the block the path walk starts in
+			var arr, dep *side
+			var startB *ssa.BasicBlock
 			ai, di := -1, -1
 			for k, a := range hc.Call.Args {
-				colObj := a
-				if tn := typeName(a.Type()); !strings.HasSuffix(tn, "csv.OptionalColumn") && !strings.HasSuffix(tn, "csv.RequiredColumn") {
-					rd, isCall := a.(*ssa.Call)
-					if !isCall || len(rd.Call.Args) == 0 {
-						continue
-					}
-					colObj = rd.Call.Args[0]
-				}
-				if ci, _ := resolveColumn(colObj, 0); ci != nil {
-					switch ci.name {
-					case "arrival_time":
-						ai = k
-					case "departure_time":
-						di = k
-					}
+				switch columnOf(a) {
+				case "arrival_time":
+					ai = k
+				case "departure_time":
+					di = k
 				}
 			}
-			if ai < 0 || di < 0 {
-				continue
-			}
-			type side struct {
-				call     *ssa.Call
-				val, flg ssa.Value
-			}
-			find := func(prm *ssa.Parameter) *side {
-				for _, hb := range h.Blocks {
-					for _, hin := range hb.Instrs {
-						call, ok := hin.(*ssa.Call)
-						if !ok || staticCallee(call) != dec {
-							continue
-						}
-						if call.Call.Args[0] != ssa.Value(prm) {
-							// the helper was handed the column object and reads the cell itself
-							rd, isRd := call.Call.Args[0].(*ssa.Call)
-							if !isRd || len(rd.Call.Args) == 0 || rd.Call.Args[0] != ssa.Value(prm) || !strings.HasSuffix(calleeName(rd), "Column).Read") {
+			if ai >= 0 && di >= 0 {
+				find := func(prm *ssa.Parameter) *side {
+					for _, hb := range h.Blocks {
+						for _, hin := range hb.Instrs {
+							call, ok := hin.(*ssa.Call)
+							if !ok || staticCallee(call) != dec {
 								continue
 							}
-						}
-						sd := &side{call: call}
-						for _, r := range *call.Referrers() {
-							if e, ok := r.(*ssa.Extract); ok {
-								if e.Index == 0 {
-									sd.val = e
-								} else {
-									sd.flg = e
+							if call.Call.Args[0] != ssa.Value(prm) {
+								// the helper was handed the column object and reads the cell itself
+								rd, isRd := call.Call.Args[0].(*ssa.Call)
+								if !isRd || len(rd.Call.Args) == 0 || rd.Call.Args[0] != ssa.Value(prm) || !strings.HasSuffix(calleeName(rd), "Column).Read") {
+									continue
 								}
 							}
+							return extracts(call)
 						}
-						return sd
+					}
+					return nil
+				}
+				arr, dep = find(h.Params[ai]), find(h.Params[di])
+				if arr != nil && dep != nil {
+					later := dep.call
+					if dominatesInstr(dep.call, arr.call) {
+						later = arr.call
+					}
+					startB = later.Block()
+				}
+			} else {
+				// the caller decodes: the arguments are the results of the two decode calls
+				arr, dep = &side{}, &side{}
+				for k, a := range hc.Call.Args {
+					ex, isEx := a.(*ssa.Extract)
+					if !isEx {
+						continue
+					}
+					dc, isCall := ex.Tuple.(*ssa.Call)
+					if !isCall || staticCallee(dc) != dec || len(dc.Call.Args) == 0 {
+						continue
+					}
+					var sd *side
+					switch columnOf(dc.Call.Args[0]) {
+					case "arrival_time":
+						sd = arr
+					case "departure_time":
+						sd = dep
+					default:
+						continue
+					}
+					sd.call = dc
+					if ex.Index == 0 {
+						sd.val = h.Params[k]
+					} else {
+						sd.flg = h.Params[k]
 					}
 				}
-				return nil
+				startB = h.Blocks[0]
 			}
-			arr, dep := find(h.Params[ai]), find(h.Params[di])
-			if arr == nil || dep == nil || arr.val == nil || arr.flg == nil || dep.val == nil || dep.flg == nil {
+			if arr == nil || dep == nil || arr.val == nil || arr.flg == nil || dep.val == nil || dep.flg == nil || startB == nil {
 				continue
 			}
 			flagIdx := -1
-			for i := 0; i < 3; i++ {
+			for i := 0; i < nres; i++ {
 				if shortType(h.Signature.Results().At(i).Type()) == "bool" {
 					flagIdx = i
 				}
 			}
 			if flagIdx < 0 {
 				continue
-			}
-			var valIdx []int
-			for i := 0; i < 3; i++ {
-				if i != flagIdx {
-					valIdx = append(valIdx, i)
-				}
-			}
-			later := dep.call
-			if dominatesInstr(dep.call, arr.call) {
-				later = arr.call
 			}
 			name := func(v ssa.Value) string {
 				switch v {
@@ -349,8 +406,99 @@ func fillViaHelper(c *Ctx, fn, dec *ssa.Function) bool {
 				}
 				return "other (" + canon(v) + ")"
 			}
-			// the caller: result valIdx[0] -> ArrivalTime, valIdx[1] -> DepartureTime, both stored under ok
+			// where in h's answer a stored value lies: result index and, for a struct result, the field
+			type slot struct{ idx, field int }
+			slotOf := func(v ssa.Value) (slot, bool) {
+				field := -1
+				if f, isField := v.(*ssa.Field); isField {
+					field, v = f.Field, f.X
+				} else if ld, isLoad := v.(*ssa.UnOp); isLoad && ld.Op == token.MUL {
+					// the answer is kept in a local of the caller, stored once, and its field is read
+					if fa, isFA := ld.X.(*ssa.FieldAddr); isFA {
+						if al, isAlloc := fa.X.(*ssa.Alloc); isAlloc && !al.Heap {
+							var only ssa.Value
+							n := 0
+							for _, r := range *al.Referrers() {
+								switch x := r.(type) {
+								case *ssa.Store:
+									if x.Addr == ssa.Value(al) {
+										only = x.Val
+									}
+									n++
+								case *ssa.FieldAddr:
+									for _, rr := range *x.Referrers() {
+										if u, isU := rr.(*ssa.UnOp); !isU || u.Op != token.MUL {
+											if _, isDbg := rr.(*ssa.DebugRef); !isDbg {
+												n += 2
+											}
+										}
+									}
+								case *ssa.DebugRef:
+								default:
+									n += 2
+								}
+							}
+							if n == 1 && only != nil {
+								field, v = fa.Field, only
+							}
+						}
+					}
+				}
+				ex, isEx := v.(*ssa.Extract)
+				if !isEx || ex.Tuple != ssa.Value(hc) || ex.Index == flagIdx {
+					return slot{}, false
+				}
+				return slot{ex.Index, field}, true
+			}
+			// the value h answers in a slot on one path: for a struct field, the last store to that field of the
+			// composite literal on the path (none: the zero value)
+			answer := func(ret *ssa.Return, pe pathEnv, sl slot) string {
+				v := pe.resolvePhi(ret.Results[sl.idx])
+				if sl.field < 0 {
+					return name(v)
+				}
+				ld, isLoad := v.(*ssa.UnOp)
+				if !isLoad || ld.Op != token.MUL {
+					return "other (" + canon(v) + ")"
+				}
+				al, isAlloc := ld.X.(*ssa.Alloc)
+				if !isAlloc {
+					return "other (" + canon(v) + ")"
+				}
+				for _, r := range *al.Referrers() {
+					switch x := r.(type) {
+					case *ssa.FieldAddr:
+						for _, rr := range *x.Referrers() {
+							if st, isSt := rr.(*ssa.Store); !isSt || st.Addr != ssa.Value(x) {
+								return "other (the address of a field of the answer is taken)"
+							}
+						}
+					case *ssa.UnOp, *ssa.DebugRef:
+					default:
+						return "other (the answer is built by " + r.String() + ")"
+					}
+				}
+				for blk := ret.Block(); blk != nil; blk = pe.pred[blk] {
+					for i := len(blk.Instrs) - 1; i >= 0; i-- {
+						st, isSt := blk.Instrs[i].(*ssa.Store)
+						if !isSt {
+							continue
+						}
+						if fa, isFA := st.Addr.(*ssa.FieldAddr); isFA && fa.X == ssa.Value(al) && fa.Field == sl.field {
+							return name(pe.resolvePhi(st.Val))
+						}
+						if st.Addr == ssa.Value(al) {
+							return name(pe.resolvePhi(st.Val))
+						}
+					}
+					if blk == startB {
+						break
+					}
+				}
+				return "constant 0:" + shortType(al.Type())
+			}
 			stores := map[string]*ssa.Store{}
+			slots := map[string]slot{}
 			okCaller := true
 			for _, fb := range fn.Blocks {
 				for _, fin := range fb.Instrs {
@@ -370,14 +518,11 @@ func fillViaHelper(c *Ctx, fn, dec *ssa.Function) bool {
 						okCaller = false
 					}
 					stores[f] = st
-					want := valIdx[0]
-					if f == "DepartureTime" {
-						want = valIdx[1]
-					}
-					ex, isEx := st.Val.(*ssa.Extract)
-					if !isEx || ex.Tuple != ssa.Value(hc) || ex.Index != want {
+					sl, isSlot := slotOf(st.Val)
+					if !isSlot {
 						okCaller = false
 					}
+					slots[f] = sl
 					underOK := false
 					for _, ce := range dominatingConds(fb) {
 						cnd, val := ce.Cond, ce.Val
@@ -406,7 +551,7 @@ func fillViaHelper(c *Ctx, fn, dec *ssa.Function) bool {
 					if !isRet {
 						continue
 					}
-					walkFlagPaths(later.Block(), nil, rb, flags, func(pe pathEnv) {
+					walkFlagPaths(startB, nil, rb, flags, func(pe pathEnv) {
 						fv, known := evalFlagCond(ret.Results[flagIdx], flags, pe)
 						if !known {
 							got["ArrivalTime"]["unknown flag"] = true
@@ -418,8 +563,11 @@ func fillViaHelper(c *Ctx, fn, dec *ssa.Function) bool {
 							return
 						}
 						nAccept++
-						got["ArrivalTime"][name(pe.resolvePhi(ret.Results[valIdx[0]]))] = true
-						got["DepartureTime"][name(pe.resolvePhi(ret.Results[valIdx[1]]))] = true
+						for _, field := range []string{"ArrivalTime", "DepartureTime"} {
+							if okCaller {
+								got[field][answer(ret, pe, slots[field])] = true
+							}
+						}
 					})
 				}
 				for _, field := range []string{"ArrivalTime", "DepartureTime"} {
@@ -445,7 +593,7 @@ func fillViaHelper(c *Ctx, fn, dec *ssa.Function) bool {
 							want = "arrival_time value"
 						}
 						ok := nAccept > 0 && nReject == 0 && len(gs) == 1 && gs[0] == want && okCaller
-						c.Check(ok, "FILL", fname, key, p.ipos(st), fmt.Sprintf("on all %d paths of %s the returned value is the %s, and the caller stores it under ok", nAccept, shortName(h), want),
+						c.Check(ok, "FILL", fname, key, p.ipos(st), fmt.Sprintf("on all %d paths of %s the value answered for the field is the %s, and the caller stores it under ok", nAccept, shortName(h), want),
 							fmt.Sprintf("stored value is {%s} on %d accepting / %d rejecting paths of %s; it must be the %s (the other side is invalid or is the field's own column)", strings.Join(gs, ", "), nAccept, nReject, shortName(h), want))
 					}
 				}
@@ -572,16 +720,16 @@ func runInheritance(c *Ctx) {
 				// guards: Parent != nil, own == NotSpecified ; value: parent's WheelchairBoarding
 				stopCanon := canon(fa.X)
 				var hasParent, ownUnspec bool
-				for _, ce := range dominatingConds(b) {
-					bo, ok := ce.Cond.(*ssa.BinOp)
+				for _, g := range expandPredicateConds(c, dominatingConds(b)) {
+					bo, ok := g.cond.(*ssa.BinOp)
 					if !ok {
 						continue
 					}
-					if isNilConst(bo.Y) && canon(bo.X) == "*("+stopCanon+".Parent)" && ((bo.Op == token.NEQ && ce.Val) || (bo.Op == token.EQL && !ce.Val)) {
+					if isNilConst(bo.Y) && g.canon(bo.X) == "*("+stopCanon+".Parent)" && ((bo.Op == token.NEQ && g.val) || (bo.Op == token.EQL && !g.val)) {
 						hasParent = true
 					}
-					if k, ok := bo.Y.(*ssa.Const); ok && !isNilConst(bo.Y) && canon(bo.X) == "*("+stopCanon+".WheelchairBoarding)" {
-						if constKey(k) == strings.TrimPrefix(c.constOf("gtfs", "WheelchairBoarding_NotSpecified"), "const:") && ((bo.Op == token.EQL && ce.Val) || (bo.Op == token.NEQ && !ce.Val)) {
+					if k, ok := bo.Y.(*ssa.Const); ok && !isNilConst(bo.Y) && g.canon(bo.X) == "*("+stopCanon+".WheelchairBoarding)" {
+						if constKey(k) == strings.TrimPrefix(c.constOf("gtfs", "WheelchairBoarding_NotSpecified"), "const:") && ((bo.Op == token.EQL && g.val) || (bo.Op == token.NEQ && !g.val)) {
 							ownUnspec = true
 						}
 					}
@@ -615,6 +763,39 @@ func runInheritance(c *Ctx) {
 							}
 							cond, val, okE := edgeTaken(path, i, loop.Header)
 							if !okE {
+								continue
+							}
+							// the three conditions named by a predicate of the module that answered false here: excused when
+							// the predicate is the conjunction of (some of) the three and nothing else
+							if pc, isCall := cond.(*ssa.Call); isCall && !val {
+								inner := expandPredicateConds(c, []condEdge{{Cond: pc, Val: true}})
+								onlyThree := len(inner) > 1
+								for _, g := range inner[1:] {
+									ibo, isB := g.cond.(*ssa.BinOp)
+									okAtom := false
+									if isB && (ibo.Op == token.EQL || ibo.Op == token.NEQ) {
+										holds := (ibo.Op == token.EQL) == g.val
+										cx := g.canon(ibo.X)
+										switch {
+										case isNilConst(ibo.Y) && cx == "*("+stopCanon+".Parent)" && !holds:
+											okAtom = true
+										case cx == "*(*("+stopCanon+".Parent).Type)" && holds:
+											if k, isK := ibo.Y.(*ssa.Const); isK && constKey(k) == station {
+												okAtom = true
+											}
+										case cx == "*("+stopCanon+".WheelchairBoarding)" && holds:
+											if k, isK := ibo.Y.(*ssa.Const); isK && constKey(k) == unspec {
+												okAtom = true
+											}
+										}
+									}
+									if !okAtom {
+										onlyThree = false
+									}
+								}
+								if onlyThree {
+									excused = true
+								}
 								continue
 							}
 							bo, isBo := cond.(*ssa.BinOp)
@@ -686,4 +867,83 @@ func runInheritance(c *Ctx) {
 			}
 		}
 	}
+}
+
+// gcond: a branch outcome, possibly one that holds inside a predicate helper, with the helper's parameters spelled as
+// the arguments of the call (sub) so that its operands compare with expressions of the caller.
+type gcond struct {
+	cond ssa.Value
+	val  bool
+	sub  map[ssa.Value]string
+}
+
+func (g gcond) canon(v ssa.Value) string {
+	if g.sub == nil {
+		return canon(v)
+	}
+	saved := canonSubst
+	canonSubst = g.sub
+	defer func() { canonSubst = saved }()
+	return canon(v)
+}
+
+// expandPredicateConds: the given outcomes, and for every call of a loop-free predicate helper of the module that is
+// known to have answered true, the outcomes of its single true exit (the conjunction the predicate stands for).
+func expandPredicateConds(c *Ctx, ces []condEdge) []gcond {
+	var out []gcond
+	for _, ce := range ces {
+		out = append(out, gcond{ce.Cond, ce.Val, nil})
+		cond, val := ce.Cond, ce.Val
+		for {
+			u, isNot := cond.(*ssa.UnOp)
+			if !isNot || u.Op != token.NOT {
+				break
+			}
+			cond, val = u.X, !val
+		}
+		call, isCall := cond.(*ssa.Call)
+		if !isCall || !val || call.Call.IsInvoke() {
+			continue
+		}
+		h := call.Call.StaticCallee()
+		if h == nil || !c.P.isModuleFn(h) || len(h.Blocks) == 0 || len(h.Params) != len(call.Call.Args) || h.Signature.Results().Len() != 1 || len(naturalLoops(h)) > 0 {
+			continue
+		}
+		sub := map[ssa.Value]string{}
+		for i, prm := range h.Params {
+			sub[prm] = canon(call.Call.Args[i])
+		}
+		var disjuncts [][]condEdge
+		for _, blk := range h.Blocks {
+			ret, ok := blk.Instrs[len(blk.Instrs)-1].(*ssa.Return)
+			if !ok {
+				continue
+			}
+			rv := ret.Results[0]
+			if bv, isC := constBool(rv); isC && !bv {
+				continue
+			}
+			var inner []condEdge
+			for _, ie := range dominatingConds(blk) {
+				if !ie.Composite {
+					inner = append(inner, ie)
+				}
+			}
+			if _, isC := rv.(*ssa.Const); !isC {
+				for _, ie := range atomise(condEdge{Cond: rv, Val: true}, 0) {
+					if !ie.Composite {
+						inner = append(inner, ie)
+					}
+				}
+			}
+			disjuncts = append(disjuncts, inner)
+		}
+		if len(disjuncts) != 1 {
+			continue
+		}
+		for _, ie := range disjuncts[0] {
+			out = append(out, gcond{ie.Cond, ie.Val, sub})
+		}
+	}
+	return out
 }
